@@ -374,6 +374,38 @@ class Weaver:
                 replace[h] = (h + len(pat) - 1, expand(to, ctx), "src", None)
             fired(rid, len(hits))
 
+        # R6 closures: parameter patterns are replaced by typed parameters (+ `let` for `&v` patterns),
+        # the closure body text is kept verbatim and wrapped in a block carrying the declared ensures
+        for c in unit.closures:
+            pat = [t.text for t in tokenize(expand(c["pat"], ctx))]
+            hits = _find_seq(toks, bo, bc + 1, pat)
+            if len(hits) != 1:
+                raise LostAnchor("unit %s: closure pattern %r occurs %d times" % (unit.name, c["pat"], len(hits)))
+            h = hits[0]
+            last = h + len(pat) - 1          # closing `|` of the parameter list
+            # body: up to the token closing the enclosing bracket, or a depth-0 comma
+            k = last + 1
+            while True:
+                tt = toks[k]
+                if tt.kind == "p" and tt.text in "([{":
+                    k = pairs[k] + 1
+                    continue
+                if tt.kind == "p" and tt.text in ")]},;":
+                    break
+                k += 1
+            body_last = k - 1
+            head = "|%s|" % expand(c["param"], ctx)
+            if c.get("ret"):
+                head += " -> (%s)" % expand(c["ret"], ctx)
+            if c.get("requires"):
+                head += " requires " + expand(c["requires"], ctx)
+            if c.get("ensures"):
+                head += " ensures " + expand(c["ensures"], ctx)
+            lets = expand(c.get("lets", ""), ctx)
+            replace[h] = (last, head + " { " + lets, "src", None)
+            add_after(body_last, " }", "closure")
+            fired("R6:closure")
+
         # R4 panics
         npanic = 0
         for h in _find_seq(toks, bo, bc, ["::", "core", "::", "panicking", "::"]):
